@@ -148,17 +148,17 @@ EXTRA_TECH = {
     "C01": " + model-free oracle for exceptions raised by Stream._emit itself (no node, no user function raised)",
     "C02": " + emissions placed an exact number of event-loop iterations after a completion and directed map_async saturation races",
     "C03": " + source histories (from_periodic / from_textfile / filenames / from_iterable under start/stop with a pending consumer): a source reads on only when its emission's awaitables are done",
-    "C04": " + scatter()/gather() segments on an in-process Dask cluster (no result carrying a reference reaches the sink after its counter hit zero)",
+    "C04": " + scatter()/gather() segments on an in-process Dask cluster (no result carrying a reference reaches the sink after its counter hit zero); pre-failed awaitable consumers; a user-defined coroutine node below every holding node type",
     "C06": " + statement programs (groupby / in-place assignment / select / filter in any order) run by one interpreter on the streaming objects and on pandas; falsy and non-string column labels",
     "C10": " + 20 c10_ theorems over the event-loop models of the asynchronous node groups (Props/AsyncMetadata.lean: every batch / tuple carries exactly its members' metadata in member order, for every action sequence) with their correspondences + model-free metadata oracle on asynchronous pipelines (buffer/delay/rate_limit/map_async/timed_window/partition with timeout) against the same pipeline with the timing removed",
     "C11": " + defect-mirroring model of EWMean on NaN cells and a pandas NaN specification (recorded finding), both compared with the real code",
     "C12": " + Props/C12Graph.lean on the dataflow model (the state inside an emitted pair IS the retained state whatever fails downstream; resumption from it, for every arrival list; the swapped order refuted on a witness) + an uninterrupted run in which a consumer rejects one delivery while the producer carries on",
-    "C13": " + rejecting consumers and falsy payloads",
-    "C14": " + None/falsy payloads, late-attached consumers, detach/re-attach of the node from its upstream",
-    "C15": " + asynchronous nodes rewired while they hold data (random and directed), every form of emit_on",
-    "C16": " + failing awaitable consumers must reach the emitter; sink_to_textfile with closed / failing files",
+    "C13": " + rejecting consumers and falsy payloads; Python-int and numpy intervals",
+    "C14": " + None/falsy payloads, late-attached consumers, detach/re-attach of the node from its upstream; combining nodes below latest (nested awaitable results)",
+    "C15": " + asynchronous nodes rewired while they hold data (random and directed), every form of emit_on; destroy(streams=selection) in the model (destroySel, 5 theorems: empty selection is a no-op, a selection is its disconnects, exactly the selected edges go) and in the histories",
+    "C16": " + failing awaitable consumers must reach the emitter; sink_to_textfile with closed / failing files; exception type of the failing functions as a case parameter (StopIteration, KeyError, OSError, falsy exception); keys whose __eq__/__hash__ raise inside unique",
     "C17": " + raising consumers, stop/start, a second source over the same directory",
-    "C18": " + tailing from_end on a file with a real read position; poll-before-downstream-done",
+    "C18": " + tailing from_end on a file with a real read position; poll-before-downstream-done; real-socket from_tcp sample (oracle only)",
     "C19": " + Kafka histories on the in-memory broker observed for background loops / threads",
     "C20": " + model of failing tasks (Model/DaskFail.lean, Props/C20Fail.lean: equivalence where no stateful node follows a failure, recorded accumulate divergence with witness) compared with both real pipelines; same-named closures, two-branch fan-out, late attachment",
 }
